@@ -927,17 +927,23 @@ impl Prop for C12Prop {
     fn run_impl(&self, req: &str, _m: &str) -> String {
         run_history(&dec_ops(req))
     }
-    fn known(&self, req: &str, _m: &str, imp: &str) -> Option<String> {
+    fn known(&self, req: &str, model: &str, imp: &str) -> Option<String> {
         // finding C12-array-concat-after-error: an array_concat that failed leaves the for-in
         // iteration counter of its validation loop in Context.state; the next array_concat skips
         // validating its first argument(s)
         let ops = dec_ops(req);
         let outs: Vec<&str> = imp.split(' ').next().unwrap_or("").split(',').collect();
+        let mouts: Vec<&str> = model.split(' ').next().unwrap_or("").split(',').collect();
+        // the FIRST operation whose output leaves the model decides: it must be that array_concat
+        let first_diff = (0..ops.len()).find(|&k| outs.get(k) != mouts.get(k));
         let mut failed_before = false;
         for (k, o) in ops.iter().enumerate() {
             if o.cmd == "array_concat" {
-                if failed_before {
+                if failed_before && (first_diff == Some(k) || first_diff.is_none()) {
                     return Some("C12-array-concat-after-error".to_string());
+                }
+                if first_diff.map_or(false, |d| d < k) {
+                    return None;
                 }
                 if outs.get(k) == Some(&"E") {
                     failed_before = true;
